@@ -306,6 +306,7 @@ class Session:
         self.retained = []           # dicts
         self.last_kind = "none"      # kind of the most recent successful edit of this registry
         self.full_defaults = not provenance.startswith("empty+si")
+        self.multi = False           # more than one live registry in this history
         self.idcheck_always = False
         self.dead = False
 
@@ -608,12 +609,14 @@ class Session:
                 rec.ok(cell)
         if not failed:
             return
+        # (only in histories with several live registries: single-registry histories carry a unique mark, nothing foreign can
+        # be cached for them, and an extra add() could cure an unrelated staleness and hide it)
         # diagnosis by consequence, through the public interface only: give this registry a table no other registry has (one
         # more unique symbol) and repeat the sub-probes that failed.  The unit-rule caches are keyed by the table's hash, so a
         # failure that disappears was caused by an entry cached for *another* registry of equal contents (known mechanism,
         # keyed per rule); a failure that stays is reported under its own key.
         redo = {}
-        if any(n in RULE_OF for n, _, _, _ in failed):
+        if self.multi and any(n in RULE_OF for n, _, _, _ in failed):
             add_mark(self.unyt, self.reg, model, next_mark("c12probe"))
             rec.count("foreign_cache_diagnoses")
             redo, _ = observe(self.unyt, self.reg, [], [sp])
@@ -944,6 +947,7 @@ def gen_random_history(r, tier, maxlen):
 def run_steps(unyt, rec, steps, syms, tier, srv, cold_final, idcheck_always=False):
     sessions = []
     mark = next_mark()
+    multi = sum(1 for st in steps if st[0] in ("new", "clone")) > 1
     for st in steps:
         if st[0] == "new":
             sessions.append(new_session(unyt, rec, st[1], syms, tier, srv, mark=mark))
@@ -956,10 +960,13 @@ def run_steps(unyt, rec, steps, syms, tier, srv, cold_final, idcheck_always=Fals
                 rec.note(f"clone-failed:{st[2]}:{type(e).__name__}")
                 sessions.append(new_session(unyt, rec, "defaults", syms, tier, srv, mark=mark))
         elif st[0] == "edit":
+            sessions[st[1]].multi = multi
             sessions[st[1]].edit(tuple(st[2]))
         elif st[0] == "probe":
+            sessions[st[1]].multi = multi
             sessions[st[1]].probe(subset=None if st[2] is None else set(st[2]))
     for s in sessions:
+        s.multi = multi
         s.probe(subset=None, fresh=True, cold=cold_final)
     rec.count("histories")
     rec.count("registries", len(sessions))
